@@ -898,3 +898,34 @@ TRANS = "geometer/transformation.py"
 V("inverse() returns the transposed inverse (C07)", "C07", TRANS, "        return type(self)(inv(self.array), copy=False)", "        return type(self)(np.swapaxes(inv(self.array), -1, -2), copy=False)", "E19.act", "Tensor.__apply__", quick=True)
 V("inverse() returns the transposed inverse (C06)", "C06", TRANS, "        return type(self)(inv(self.array), copy=False)", "        return type(self)(np.swapaxes(inv(self.array), -1, -2), copy=False)", "E19.act", "Tensor.__apply__", quick=True)
 V("twin: inverse() through a local (C07)", "C07", TRANS, "        return type(self)(inv(self.array), copy=False)", "        inverted = inv(self.array)\n        return type(self)(inverted, copy=False)", "silent")
+
+
+# ------------------------------------------------------------------------------------------------ helpers that raise, renamed helpers (false alarms of the refactoring matrix)
+_DEP_OLD = '''    if check_dependence:
+        is_zero = result.is_zero()
+        if result.free_indices == 0 and is_zero:
+            raise LinearDependenceError("Arguments are not linearly independent.")
+        elif np.any(is_zero):
+            raise LinearDependenceError("Some arguments are not linearly independent.", is_zero)
+'''
+_DEP_HELPER = '''
+
+def _raise_if_dependent(result: Tensor) -> None:
+    is_zero = result.is_zero()
+    if result.free_indices == 0 and is_zero:
+        raise LinearDependenceError("Arguments are not linearly independent.")
+    if np.any(is_zero):
+        raise LinearDependenceError("Some arguments are not linearly independent.", is_zero)
+
+
+def _divide_by_power_of_two(array: np.ndarray, power: int) -> np.ndarray:'''
+for _p in ("C02", "C01"):
+    V(f"twin: the dependence check in a helper that raises ({_p})", _p, "geometer/point.py", _DEP_OLD,
+      "    if check_dependence:\n        _raise_if_dependent(result)\n", "silent", quick=(_p == "C02"),
+      extra=[("geometer/point.py", "\n\ndef _divide_by_power_of_two(array: np.ndarray, power: int) -> np.ndarray:", _DEP_HELPER)])
+    V(f"twin: the normalisation helper made public ({_p})", _p, "geometer/point.py", "_divide_by_power_of_two", "divide_by_power_of_two", "silent", count=2)
+V("the dependence check in a helper that raises for collections only", "C02", "geometer/point.py", _DEP_OLD,
+  "    if check_dependence:\n        _raise_if_dependent(result)\n", "E19.join", "_join_meet_duality",
+  extra=[("geometer/point.py", "\n\ndef _divide_by_power_of_two(array: np.ndarray, power: int) -> np.ndarray:",
+          _DEP_HELPER.replace("    if result.free_indices == 0 and is_zero:\n        raise LinearDependenceError(\"Arguments are not linearly independent.\")\n", "")
+          .replace("    if np.any(is_zero):", "    if result.free_indices > 0 and np.any(is_zero):"))])
